@@ -21,6 +21,7 @@ class Gen:
     def gradient(self):
         r = self.rng
         gid = self.nid('grad')
+        if r.random() < 0.1: gid += r.choice(['.a', '.2', ':x'])      # any XML name is a valid id
         units = r.choice(['', ' gradientUnits="userSpaceOnUse"', ' gradientUnits="objectBoundingBox"'])
         gt = r.choice(['', ' gradientTransform="translate(1,2)"', ' gradientTransform="scale(2) translate(1 0)"', ' gradientTransform="rotate(45)"'])
         spread = r.choice(['', ' spreadMethod="reflect"', ' spreadMethod="repeat"'])
@@ -54,7 +55,7 @@ class Gen:
     def paint(self):
         r = self.rng
         a = ''
-        if r.random() < self.p_grad: a += f' fill="url(#{self.gradient() if not self.grad_ids or r.random() < 0.5 else r.choice(self.grad_ids)})"'
+        if r.random() < self.p_grad: a += f' fill="url(#{self.gradient() if not self.grad_ids or r.random() < 0.5 else r.choice(self.grad_ids)}){" red" if r.random() < 0.08 else ""}"'     # a paint may name a fallback
         elif r.random() < 0.7: a += f' fill="{r.choice(COL + ["none"])}"'
         if r.random() < self.p_stroke:
             a += f' stroke="{r.choice(COL)}" stroke-width="{r.choice([1, 2, 0.5])}"'
